@@ -4,3 +4,4 @@ import Frp.Model.Host
 import Frp.Lemmas.Router
 import Frp.Props.C06
 import Frp.Engines.Router
+import Frp.Engines.All
